@@ -554,9 +554,116 @@ def aes_patch_check():
     return None
 
 
+def validate_views():
+    """Validation (not proof) of the ASSUMED library views the contracts rest on, against the installed libraries.
+    -> [{"fact": id, "ok": bool, "detail": str}]"""
+    import struct as _st
+    import xml.etree.ElementTree as XET
+    out = []
+
+    def fact(fid, fn):
+        try:
+            ok, detail = fn()
+        except Exception as e:  # noqa
+            ok, detail = False, "validator crashed: " + repr(e)[:200]
+        out.append({"fact": fid, "ok": bool(ok), "detail": str(detail)[:300]})
+
+    def v_pypdf():
+        pb = patch_probe()
+        if pb.get("error"):
+            return False, pb["error"]
+        return sorted(pb["importers"]) == sorted(ASSUMED_IMPORTERS), f"modules binding the AES names: {pb['importers']}"
+    fact("pypdf-modules-binding-the-aes-names", v_pypdf)
+
+    def v_zip():
+        z = zipfile.ZipFile(io.BytesIO(zip_bytes([("a.txt", b"x", 1, None), ("b.txt", b"y", 0, 9), ("d/", b"", 0, None), ("c.txt", b"z", 0, None)])))
+        infos = z.infolist()
+        types = []
+        for nm in ("a.txt", "b.txt", "missing"):
+            try:
+                z.read(nm)
+                types.append(None)
+            except Exception as e:  # noqa
+                types.append(type(e))
+        ok = (types == [RuntimeError, NotImplementedError, KeyError] and issubclass(NotImplementedError, RuntimeError)
+              and [i.flag_bits & 1 for i in infos] == [1, 0, 0, 0] and [i.is_dir() for i in infos] == [False, False, True, False] and z.read("c.txt") == b"z")
+        return ok, f"read(encrypted/unsupported/missing) raised {[t.__name__ if t else None for t in types]}"
+    fact("zipfile-flag-bits-is_dir-and-read-exceptions", v_zip)
+
+    def v_ole():
+        import olefile
+        n = 0
+        for p in sorted(glob.glob(os.path.join(RES, "**/*.xls"), recursive=True) + glob.glob(os.path.join(RES, "**/*.doc"), recursive=True))[:6]:
+            data = open(p, "rb").read()
+            if not olefile.isOleFile(io.BytesIO(data)):
+                if data[:8] == b"\xd0\xcf\x11\xe0\xa1\xb1\x1a\xe1":
+                    return False, f"{p}: OLE signature but isOleFile is False"
+                continue
+            with olefile.OleFileIO(io.BytesIO(data)) as ole:
+                names = {"/".join(e) for e in ole.listdir(streams=True, storages=True)}
+                for nm in ("Workbook", "Book", "WordDocument", "EncryptionInfo", "EncryptedPackage", "1Table", "NoSuchStream"):
+                    if ole.exists(nm) != (nm.lower() in {x.lower() for x in names}):
+                        return False, f"{p}: exists({nm}) disagrees with listdir"
+                    if ole.exists(nm) and ole.get_type(nm) == olefile.STGTY_STREAM and len(ole.openstream(nm).read()) != ole.get_size(nm):
+                        return False, f"{p}: read() is not the whole stream {nm}"
+            n += 1
+        return n >= 2 and not olefile.isOleFile(io.BytesIO(b"PK\x03\x04" + b"\0" * 600)), f"{n} OLE fixtures"
+    fact("olefile-isOleFile-exists-openstream-read", v_ole)
+
+    def v_struct():
+        rnd = random.Random(1)
+        for _ in range(300):
+            b = bytes(rnd.getrandbits(8) for _ in range(rnd.randint(0, 12)))
+            o = rnd.randint(0, 12)
+            for fmt, size in (("<H", 2), ("<I", 4)):
+                want = sum(b[o + k] << (8 * k) for k in range(size)) if o + size <= len(b) else None
+                try:
+                    got = _st.Struct(fmt).unpack_from(b, o)[0]
+                except _st.error:
+                    got = None
+                if got != want:
+                    return False, f"Struct({fmt}).unpack_from({b!r}, {o}) = {got}, model {want}"
+            for n in (0, 1, 2):
+                if len(b) >= n and int.from_bytes(b[:n], "little") != sum(b[k] << (8 * k) for k in range(n)):
+                    return False, "int.from_bytes"
+        return True, "300 random buffers"
+    fact("struct-unpack_from-and-int-from_bytes-little-endian", v_struct)
+
+    def v_xml():
+        from defusedxml import ElementTree as DET
+        doc = b'<m:manifest xmlns:m="urn:x"><!-- m:encryption-data --><m:file-entry m:full-path="encryption-data"><m:encryption-data/></m:file-entry><plain/></m:manifest>'
+        root = DET.fromstring(doc)
+        locs = [e.tag.rsplit("}", 1)[-1] for e in root.iter()]
+        try:
+            DET.fromstring(doc[:40])
+            trunc = None
+        except Exception as e:  # noqa
+            trunc = e
+        ok = locs == ["manifest", "file-entry", "encryption-data", "plain"] and isinstance(trunc, (DET.ParseError, XET.ParseError))
+        enc = XET.fromstring(enc_xml(["http://www.idpf.org/2008/embedding", None]))
+        eds = enc.findall(".//{http://www.w3.org/2001/04/xmlenc#}EncryptedData")
+        meths = [e.find("{http://www.w3.org/2001/04/xmlenc#}EncryptionMethod") for e in eds]
+        ok = ok and len(eds) == 2 and meths[0] is not None and meths[0].get("Algorithm") == "http://www.idpf.org/2008/embedding" and meths[1] is None
+        return ok, f"iter() local names {locs}; truncated document -> {type(trunc).__name__}; findall/find/get as modelled"
+    fact("elementtree-iter-tags-ParseError-findall-find-get", v_xml)
+
+    def v_pdf():
+        from pypdf import PdfReader
+        p = glob.glob(os.path.join(RES, "**/password_protected*/*.pdf"), recursive=True)
+        if not p:
+            return False, "no protected PDF fixture"
+        r = PdfReader(io.BytesIO(open(p[0], "rb").read()))
+        res = r.decrypt("")
+        return bool(r.is_encrypted) and res == 0 and int(res) == 0, f"decrypt('') = {res!r} on the protected fixture"
+    fact("pypdf-is_encrypted-and-decrypt-result-0-for-a-rejected-password", v_pdf)
+    return out
+
+
 def find(req):
     import logging
     logging.disable(logging.CRITICAL)
+    if req.get("validate_views"):
+        return {"reproduced": False, "facts": validate_views()}
     if req.get("known_finding"):
         ok, inputs, obs = finding(req["known_finding"])
         return {"reproduced": bool(ok), "inputs": inputs, "observed": obs, "expected": EXPECT}
